@@ -148,6 +148,45 @@ def fixed_cases() -> dict:
     return out
 
 
+def guard_cases() -> dict:
+    """Hand-made histories of the shapes that random generation reaches rarely; they are equal to
+    from-scratch on the unchanged tree (a difference is reported under its own signature)."""
+    def prog(scripts):
+        return {"op": "program", "program": {"scripts": scripts, "commands": {}}}
+    st = {"op": "static", "paths": ["s.txt"]}
+    t = {"op": "step", "label": "t", "inp": ["s.txt"], "out": ["o.txt"]}
+    u = {"op": "step", "label": "u", "inp": ["o.txt"], "out": ["u.txt"]}
+    z = {"op": "step", "label": "z", "inp": ["undeclared.txt"], "out": ["z.txt"]}
+    change = {"op": "write", "path": "s.txt", "content": "new\n"}
+    out = {}
+    # a step defined by a sub-plan is dropped, its input (a static file of the MAIN plan, which
+    # does not rerun) changes while the step is detached, the step is re-added unchanged; the
+    # detached node survives because the cleanup pass is skipped (z stays pending / --no-clean)
+    for name, extra, build in (("skipped-cleanup", [z], {}), ("no-clean", [], {"clean": False})):
+        main = [st, {"op": "static", "paths": ["p1.py"]}, {"op": "plan", "label": "./p1.py"}] + extra
+        p = e3.Project(sources={"s.txt": "old\n"},
+                       program={"scripts": {"plan.py": main, "p1.py": [t, u]}, "commands": {}})
+        out["drop-change-readd:" + name] = co.case_json(p, [
+            {"edits": [{"op": "script", "path": "p1.py", "actions": []}]},
+            {"edits": [change]},
+            {"edits": [{"op": "script", "path": "p1.py", "actions": [t, u]}]}], build=build)
+    # drop a sub-plan, clean up, re-add it unchanged; with and without a change in between
+    sub = [st, t]
+    main1 = [{"op": "static", "paths": ["p1.py"]}, {"op": "plan", "label": "./p1.py"}, u]
+    main2 = [{"op": "static", "paths": ["p1.py"]}]
+    for name, mid in (("unchanged", []), ("changed", [{"edits": [change]}])):
+        p = e3.Project(sources={"s.txt": "old\n"}, program={"scripts": {"plan.py": main1, "p1.py": sub}, "commands": {}})
+        out["drop-subplan-cleanup-readd:" + name] = co.case_json(p, [
+            {"edits": [{"op": "script", "path": "plan.py", "actions": main2}]}, *mid,
+            {"edits": [{"op": "script", "path": "plan.py", "actions": main1}]}])
+    # a producer is redefined with another output name while its consumer stays
+    p = e3.Project(sources={"s.txt": "old\n"}, program={"scripts": {"plan.py": [st, t, u]}, "commands": {}})
+    t2 = {"op": "step", "label": "t", "inp": ["s.txt"], "out": ["o2.txt"]}
+    out["producer-output-renamed"] = co.case_json(p, [{"edits": [prog({"plan.py": [st, t2, u]})]},
+                                                      {"edits": [prog({"plan.py": [st, t, u]})]}])
+    return out
+
+
 def _item_seed(ctx, i):
     return int.from_bytes(hashlib.sha1(f"C01-{ctx.seed}-{i}".encode()).digest()[:4], "big")
 
@@ -244,6 +283,17 @@ def oracle(ctx, n_override=None):
                 reported.add(s2)
                 _report(ctx, s2, case, [[d["kind"], d["key"], d["a"], d["b"]] for d in diffs],
                         f"fixed witness of {sig}; return codes {r['inc'].returncode} / {r['scr'].returncode}")
+    for name, case in guard_cases().items():
+        r = co.run_case(case)
+        sigs = co.signatures(r["inc"], r["scr"], r["diffs"], co.edit_kinds(
+            e3.Project.from_json(case["project"]), case["history"]), r["results"][:-1])
+        ctx.case(("guard", name), nontrivial=True)
+        ctx.count("guard_case_runs")
+        for s2, diffs in sigs.items():
+            if s2 not in reported:
+                reported.add(s2)
+                _report(ctx, s2, case, [[d["kind"], d["key"], d["a"], d["b"]] for d in diffs],
+                        f"guard case {name}; return codes {r['inc'].returncode} / {r['scr'].returncode}")
     # (3) generated histories
     n = n_override or ctx.scale(240, 6000)
     items = [_gen_item(_item_seed(ctx, i), i) for i in range(n)]
